@@ -71,7 +71,7 @@ def t_types(rep, prog, rule):
             if not roles:
                 continue
             n += 1
-            arms.append(c)
+            arms.append((tuple(sorted(roles.items())), c))
             key = "%s|%s" % (name, ",".join(t.replace("pixels::Pixel", "P") for t in targs))
             want = []
             if "single" in roles:
@@ -86,29 +86,39 @@ def t_types(rep, prog, rule):
             else:
                 rep.bad(rule, key, c.at, "%s: the arm for pixel type %s instantiates %s (whose "
                         "pixel_type() is %s)" % (name, want, targs, got))
-        # all arms of one table do the same thing: they call one generic function and differ in
-        # its type arguments only (an arm of divide_alpha_inplace that calls the multiply helper
-        # type-checks -- the helpers have one signature)
-        by = {}
-        for c in arms:
-            by.setdefault(c.id, []).append(c)
-        if by:
-            top = max(by.values(), key=len)
-            majority[name] = top[0].id
-            for cid, cs in sorted(by.items()):
-                if cs is top:
+        # all arms of one table do the same thing: each arm makes the same set of generic calls and
+        # the arms differ in the type arguments only (an arm of divide_alpha_inplace that calls the
+        # multiply helper type-checks -- the helpers have one signature)
+        per_arm = {}
+        for armkey, c in arms:
+            per_arm.setdefault(armkey, []).append(c)
+        sets = {}
+        for armkey, cs in per_arm.items():
+            sets.setdefault(frozenset(c.id for c in cs), []).append(armkey)
+        if sets:
+            top_set = max(sets, key=lambda k: len(sets[k]))
+            top_calls = [c for c in per_arm[sets[top_set][0]]]
+            # the callee that carries the operation: the crate-local one (not a view getter)
+            main = [c for c in top_calls if prog.call_targets(c) and not (c.method or "").startswith("image_view")]
+            majority[name] = {c.id for c in (main or top_calls)}
+            for cset, armkeys in sets.items():
+                if cset == top_set:
                     continue
-                for c in cs:
-                    deviants.append((name, c, len(cs), top))
-            if len(by) == 1:
-                rep.ok(rule, "%s|callee" % name, f.loc, "all %d arms call %s" % (len(arms), arms[0].name))
-    for (name, c, k, top) in deviants:
+                for armkey in armkeys:
+                    for c in per_arm[armkey]:
+                        if c.id not in top_set:
+                            deviants.append((name, c, len(armkeys), [x for x in top_calls if x.id not in cset] or top_calls,
+                                             len(sets[top_set])))
+            if len(sets) == 1:
+                rep.ok(rule, "%s|callee" % name, f.loc, "all %d arms make the same %d generic call(s)" % (
+                    len(per_arm), len(top_set)))
+    for (name, c, k, top, ntop) in deviants:
         k2 = "%s|%s|callee" % (name, ",".join(t.replace("pixels::Pixel", "P") for t in c.targs() if t in pt))
-        other = [t for t, cid in majority.items() if cid == c.id and t != name]
-        if other and k * 2 < len(top):
+        other = [t for t, ids in majority.items() if c.id in ids and t != name]
+        if other and k * 2 < ntop:
             rep.bad(rule, k2, c.at, "%s: this arm calls %s -- the function the arms of %s call -- while the "
                     "other %d arms call %s: the dynamic entry point does another operation for this "
-                    "pixel type than the typed one" % (name, c.name, other[0], len(top), top[0].name))
+                    "pixel type than the typed one" % (name, c.name, other[0], ntop, top[0].name))
         else:
             rep.unk(rule, k2, c.at, "this arm calls %s, most arms call %s (a specialised routine for one "
                     "pixel type?)" % (c.name, top[0].name))
